@@ -904,6 +904,8 @@ class DnsRecordTxtValueSpf(ParsableBase, Serializable):
                 term_parser = ParserText(parser['term'].encode('ascii'))
                 term_parser.parse_parsable('value', DnsRecordTxtValueSpfModifierUnknown)
                 term = term_parser['value']
+                if term.value is None:  # modifier = name "=" macro-string; a bare word is not a term
+                    raise InvalidValue(parser['term'], cls, 'terms')
 
             terms.append(term)
             del parser['term']
